@@ -22,14 +22,17 @@ import (
 // fact  len(root) - K >= 0  (root a decoder input: the []byte parameter, a loop-carried cursor slice, the element
 // at an offset cursor) or  len(param) - offset - K >= 0  (offset a loop-carried integer). The record is the one
 // the decode tables attribute to that root in that function; in the chain walker it is the generic header.
-func (w *slotWorld) lengthGuardRule(r *Report, rule string) {
-	r.Rule(rule, "a decoder's constant test of the remaining input length lets the shortest in-domain encoding of the record pass (min_octets of the reference layout)", 15)
+func (w *slotWorld) lengthGuardRule(r *Report, rule string) { w.lengthGuardRuleIn(r, rule, nil, 15) }
+
+// lengthGuardRuleIn restricts the rule to one function (the chain walker, for C13) when only != nil.
+func (w *slotWorld) lengthGuardRuleIn(r *Report, rule string, only *ssa.Function, floor int) {
+	r.Rule(rule, "a decoder's constant test of the remaining input length lets the shortest in-domain encoding of the record pass (min_octets of the reference layout)", floor)
 	c := w.c
 	dec, _, _ := c.codecFuncs()
 	walker := c.Method("message", "IKEPayloadContainer", "Decode")
 	seenFn := map[*ssa.Function]bool{}
 	for _, fn := range c.Reachable(dec...) {
-		if seenFn[fn] || fn.Blocks == nil {
+		if seenFn[fn] || fn.Blocks == nil || (only != nil && fn != only) {
 			continue
 		}
 		seenFn[fn] = true
